@@ -628,3 +628,33 @@ package core
 //@   invariant "range commands" max_so_far [C07]: (forall k string :: visited(k) ==> k <= highestConfig) && \
 //@      (highestConfig == "" || (in(highestConfig, commands) && highestCommand == commands[highestConfig])) && \
 //@      (highestConfig == "" ==> highestCommand == "")
+
+// Configuration.Hash (C10): every variable of the configured build environment (BuildEnv entries and the
+// values of the PassEnv variables) is hashed by name and value, except those whose NAME STARTS WITH "SECRET";
+// nothing is written in map order.
+//@ func (Configuration).Hash
+//@   requires config != nil
+//@   opt nopanic=off
+//@   opt inline=off
+//@   opt precall=off
+//@   callsite (Writer).Write collect W string: string(arg_p)
+//@   callsite (Writer).Write never_in_map_iteration_order [C07]: !inmaprange()
+//@   invariant "range slices.Sorted" every_non_secret_variable_is_hashed [C10]: forall j int :: 0 <= j && j < idx ==> \
+//@      (!hasPrefix(iter[j], "SECRET") ==> collected(W, iter[j]) && collected(W, env[iter[j]]))
+
+//@ assume func (BuildLabel).IsHidden
+//@   pure
+//@ assume func (BuildInput).Label
+//@   pure
+
+// HasSource (C24): a file counts as consumed when it is one of the target's sources OR one of its data files
+// (named groups included: AllSources / AllData), or lies under a directory listed there.
+//@ func (BuildTarget).HasSource
+//@   requires target != nil
+//@   opt nopanic=off
+//@   invariant "range append" none_so_far: forall k int :: 0 <= k && k < idx ==> \
+//@      !(iter[k].String() == source || hasPrefix(source, iter[k].String() + "/"))
+//@   ensures sources_count [C24]: forall k int :: 0 <= k && k < len(target.AllSources()) ==> \
+//@      (target.AllSources()[k].String() == source || hasPrefix(source, target.AllSources()[k].String() + "/") ==> result)
+//@   ensures data_counts [C24]: forall k int :: 0 <= k && k < len(target.AllData()) ==> \
+//@      (target.AllData()[k].String() == source || hasPrefix(source, target.AllData()[k].String() + "/") ==> result)
